@@ -14,7 +14,7 @@ from pytestarch import DiagramRule, LayeredArchitecture, LayerRule, Rule
 
 from .. import models as M
 from .. import rulespace as RS
-from ..drive import Project, eval_layer_rule, eval_rule, make_evaluable, outcome, scan_outcome
+from ..drive import Project, eval_layer_rule, eval_rule, make_evaluable, outcome, reuse_aware, scan_outcome
 
 ID = "C13"
 MOD = __name__
@@ -370,6 +370,7 @@ def absent_names(tree, level_limit=None) -> list:
     return [(k, n) for k, n in out if n not in tree]
 
 
+@reuse_aware
 def check_name_case(spec: dict) -> dict:
     tree, imports = spec["tree"], [tuple(e) for e in spec["imports"]]
     limit = spec.get("level_limit")
@@ -393,6 +394,17 @@ def check_name_case(spec: dict) -> dict:
 
 @st.composite
 def name_cases(draw):
+    spec = draw(plain_name_cases())
+    if draw(st.integers(0, 2)) == 0:
+        # the rule object is first applied to an architecture in which the name does exist (no level limit, the absent
+        # module added), then to the one in which it does not
+        t2 = sorted(M.closure(set(spec["tree"]) | {spec["absent"]}))
+        spec["warm"] = {"tree": t2, "imports": [list(e) for e in draw(RS.import_relation(t2, max_edges=8))]}
+    return spec
+
+
+@st.composite
+def plain_name_cases(draw):
     tree = draw(RS.trees(root="q", max_modules=10))
     limit = draw(st.sampled_from([None, None, 1, 2]))
     flat = sorted({".".join(m.split(".")[: limit + 1]) for m in tree}) if limit else list(tree)
